@@ -1253,7 +1253,15 @@ pub fn run(ctx: &Ctx) -> Report {
                     // a listed finding names the magnitudes at which the site fails on the recorded tree; the same
                     // site failing at any other magnitude is a different violation (e.g. a limit check that went away)
                     if let Some(listed) = known_mags.get(&key) {
-                        if !listed.contains(&m.label()) {
+                        // a stack overflow of an unbounded recursion: the depth at which the stack runs out depends on
+                        // the size of the frames, which a behaviour-preserving restructuring changes by a small factor
+                        // (an extracted helper, an extra local) — the listed finding covers every depth from a quarter
+                        // of its smallest listed depth upwards; a failure at a much smaller depth is something else
+                        let same_overflow = matches!(m, Mag::Depth(_)) && key_kind(kind) == "signal" && {
+                            let min_listed = listed.iter().filter_map(|x| x.strip_prefix("n=").and_then(|n| n.parse::<usize>().ok())).min();
+                            min_listed.map(|d| m.n() * 4 >= d).unwrap_or(false)
+                        };
+                        if !listed.contains(&m.label()) && !same_overflow {
                             key = format!("{}@{}", key, m.label());
                         }
                     }
